@@ -242,6 +242,8 @@ func runC13(tier string) *vf.Run {
 	// an inconclusive case is retried once on its own before it counts
 	for i, r := range results {
 		if r != nil && r.inconclusive != "" {
+			fmt.Fprintf(os.Stderr, "catalogrig: case %d (%s) inconclusive on first attempt: %s; retrying alone\n", plans[i].Idx, plans[i].describe(), r.inconclusive)
+			run.Count("cases_retried_alone", 1)
 			results[i] = c13Case(run, box, plans[i], 1)
 		}
 	}
